@@ -1,6 +1,7 @@
 // Bounded-exhaustive enumeration of input shapes x configurations on the real tree + sequential executor.
 // Modes: C01 (pair multiplicities), C02 (operator arguments / geometry), C06 (construction), C07 (structure),
 //        C08 (grouping independence), C16 (lookup).
+#include "spacial/tbfhilbertspaceindex.hpp"
 #include "vf_enum.hpp"
 #include "kernels/counterkernels/tbfinteractioncounter.hpp"
 
@@ -66,9 +67,8 @@ u64 contentDigest(const FX& fx){
     return h;
 }
 
-template <int Dim>
-void evalCase(const std::string& mode, const Spec& spec, Report& rep){
-    using SI = Morton<Dim>;
+template <int Dim, class SI = Morton<Dim>>
+void evalCase(const std::string& mode, const Spec& spec, Report& rep, const std::string& keyPrefix = ""){
     using FX = Fixture<double, SI, KS>;
     using Algo = TbfAlgorithm<double, typename FX::Kernel, SI>;
     Outcome out;
@@ -137,7 +137,7 @@ void evalCase(const std::string& mode, const Spec& spec, Report& rep){
     }
     rep.evaluations += 1;
     if(nontrivial) rep.nontrivial += 1;
-    if(!out.ok()) rep.addOutcome(out, spec.str());
+    if(!out.ok()) rep.addOutcome(out, keyPrefix.empty() ? spec.str() : keyPrefix + " " + spec.str(), keyPrefix);
 }
 
 // C08: one input, every grouping; everything must equal the canonical (single group) run
@@ -206,6 +206,23 @@ void runSpace(const std::string& mode, const Space& sp, const Args& args, Report
                 if(rep.evaluations % 50021 == 1) rep.sample(spec.str());
             }
         }
+    });
+}
+
+// the Hilbert ordering (3-D only): C01 count channel, C02 arguments/geometry, C06 construction
+void runHilbert(const std::string& mode, const Space& sp, const Args& args, Report& rep, Progress& pg){
+    using HI = TbfHilbertSpaceIndex<3, TbfSpacialConfiguration<double,3>, false>;
+    const long nLeaves = 1L << (3*(sp.height-1));
+    rep.spaces.push_back("hilbert " + sp.describe());
+    forEachPattern(nLeaves, sp.maxSubset, args.slice, args.nbSlices, [&](const std::vector<long>& leaves){
+        if(rep.timeUp()){ rep.exhaustive = false; return; }
+        pg.publish(rep);
+        for(const int motif : sp.motifs) for(const int boxId : sp.boxIds) for(const long upper : sp.uppers)
+            for(const long bs : blockSizesFor(long(leaves.size()), sp.allBlockSizes)) for(int og = 0 ; og < 2 ; ++og){
+                const Spec spec = makeSpec(3, sp.height, leaves, motif, boxes()[boxId], bs, og != 0, upper);
+                if(!pg.begin("hilbert: " + spec.str())) continue;
+                evalCase<3, HI>(mode, spec, rep, "hilbert:");
+            }
     });
 }
 
@@ -307,6 +324,11 @@ void runBoxLattice(const std::string& mode, const Args& args, Report& rep, Progr
 int replayOne(const std::string& mode, const std::string& text){
     const Spec spec = parseSpec(text);
     Report rep; rep.property = mode;
+    if(text.compare(0, 8, "hilbert:") == 0){
+        evalCase<3, TbfHilbertSpaceIndex<3, TbfSpacialConfiguration<double,3>, false>>(mode, spec, rep, "hilbert:");
+        for(const auto& kv : rep.violations) std::cout << "REPLAY-VIOLATION key=" << kv.first << " detail=" << kv.second.second << "\n";
+        return rep.violations.empty() ? 0 : 1;
+    }
     if(mode == "C08"){
         std::cerr << "C08 replays are re-run through the enumeration (case: " << text << ")\n";
     }
@@ -330,6 +352,13 @@ int main(int argc, char** argv){
         for(const Space& sp : spacesFor(args.mode, args.tier)){
             if(rep.timeUp()){ rep.exhaustive = false; break; }
             runSpaceDyn(args.mode, sp, args, rep, pg);
+        }
+        if(args.mode == "C01" || args.mode == "C02" || args.mode == "C06"){
+            const std::vector<int> mH = (args.mode == "C06") ? std::vector<int>{MCentre, MMixed, MCorner, MTwo, MUpperFace} : std::vector<int>{MMixed, MTwo};
+            runHilbert(args.mode, {3, 2, 0, mH, {0}, true, {2}}, args, rep, pg);
+            runHilbert(args.mode, {3, 3, 2, {MMixed}, {0}, false, {2}}, args, rep, pg);
+            runHilbert(args.mode, {3, 4, (args.tier == "thorough" ? 2 : 1), {MMixed}, {0, 1}, false, {2}}, args, rep, pg);
+            runHilbert(args.mode, {3, 5, 1, {MMixed}, {0}, false, {2}}, args, rep, pg);
         }
         if(args.mode == "C06"){ runBoxLattice<1>(args.mode, args, rep, pg); runBoxLattice<3>(args.mode, args, rep, pg); }
     });
